@@ -1018,3 +1018,70 @@ def tp_forms(c, which="advection", degree=2):
     if which == "linear":
         return (exp(0.3 * f) * inner(grad(f), grad(v)) + inner(f * f, v)) * dx
     return (f * f + inner(grad(f), grad(f))) * dx
+
+
+# ============================================================================ C11 builders
+@builder
+def monomial(c, q=2, arity=0, itype="cell", scheme="default", md=True):
+    """int prod_i x_i**e_i [v] with the exponents passed as a vector constant (one kernel per (cell,q))."""
+    e = Constant(c.mesh, shape=(c.gdim,))
+    x = c.x
+    g = x[0] ** e[0]
+    for i in range(1, c.gdim):
+        g = g * x[i] ** e[i]
+    meta = {"quadrature_degree": q}
+    if scheme != "default":
+        meta["quadrature_rule"] = scheme
+    m = measure(itype, metadata=meta) if md else measure(itype)
+    if arity == 0:
+        return g * m
+    v = TestFunction(c.V("Lagrange", 1))
+    return g * v * m
+
+
+@builder
+def poly_nomd(c, alphas=((1, 0), (0, 2)), arity=1):
+    """Polynomial integrand sum_k c_k x^alpha_k [v] WITHOUT metadata: the estimated degree must make it exact."""
+    x = c.x
+    ks = Constant(c.mesh, shape=(len(alphas),))
+    g = 0
+    for k, al in enumerate(alphas):
+        t = ks[k]
+        for i, a in enumerate(al):
+            if a:
+                t = t * x[i] ** int(a)
+        g = g + t
+    if arity == 0:
+        return g * dx
+    v = TestFunction(c.V("Lagrange", 1))
+    return g * v * dx
+
+
+@builder
+def vertex_scheme(c, itype="cell"):
+    x = c.x
+    g = exp(0.3 * x[0]) * (1 + (x[c.gdim - 1]) ** 2)
+    return g * measure(itype, metadata={"quadrature_rule": "vertex", "quadrature_degree": 1})
+
+
+@builder
+def rule_mix(c, rules=(("default", 1), ("default", 4)), shared=True, itype="cell", sid=None):
+    """A sum of integrals over one subdomain, each with its own rule; integrands non-polynomial and (optionally)
+    sharing sub-expressions."""
+    V = c.V("Lagrange", 2)
+    f = Coefficient(V)
+    v = TestFunction(c.V("Lagrange", 1))
+    R = (lambda e: e("+")) if itype == "interior_facet" else (lambda e: e)
+    s = exp(0.5 * R(f)) if shared else None
+    form = None
+    for i, (scheme, q) in enumerate(rules):
+        g = (s if shared else exp(0.5 * R(f) + 0.1 * i)) * sin(R(f) + 0.3 * i) + R(c.x[0]) ** 2 * (i + 1)
+        md = {"quadrature_degree": q}
+        if scheme != "default":
+            md["quadrature_rule"] = scheme
+        kw = {"metadata": md}
+        if sid is not None:
+            kw["subdomain_id"] = sid
+        t = g * R(v) * measure(itype, **kw)
+        form = t if form is None else form + t
+    return form
